@@ -69,13 +69,15 @@ def rp(rel):
 
 
 def root_arg(o):
-    """the root folder as the user may spell it: absolute (default), with a trailing separator, with a trailing /., as '.' from
+    """the root folder as the user may spell it: absolute (default), with a trailing separator, with two of them, with a trailing /., as '.' from
     inside, or relative to its parent (the last two need a working directory, see cwd_for); 'symlink': absolute, but through a
     symbolic link to the root folder (run_cmd creates the link and points every path of the command line through it)"""
     sp = o.get("spell") or ("slash" if o.get("slash") else None)
     base = rp(o.get("root", "") or "")
     if sp == "slash":
         return base + "/"
+    if sp == "slashslash":
+        return base + "//"
     if sp == "slashdot":
         return base + "/."
     if sp == "dot":
@@ -192,6 +194,17 @@ def run_cmd(ctx, tree, op, now, cwd=None, keep=False, mtimes=None, root=None, ob
             sub.rm(lndir)
         os.makedirs(lndir, exist_ok=True)
         os.symlink(root, argroot)
+    if len(op) > 1 and isinstance(op[1], dict) and op[1].get("spell") == "dotdot":
+        # the root reached as <link to a folder>/../<name>: the operating system follows the link before it goes up, so this is
+        # the root folder itself (the link points at it); collapsing "cur/.." textually would name ln2/<name> instead - a decoy
+        # folder that exists and holds a file
+        lndir = os.path.join(os.path.dirname(root), "ln2")
+        sub.rm(lndir)
+        os.makedirs(os.path.join(lndir, os.path.basename(root)))
+        with sub.REAL["open"](os.path.join(lndir, os.path.basename(root), "decoy.txt"), "wb") as f:
+            f.write(b"not the folder that was named")
+        os.symlink(root, os.path.join(lndir, "cur"))
+        argroot = os.path.join(lndir, "cur", "..", os.path.basename(root))
     args = expand_args(args, argroot, **(subst or {}))
     if not observe:
         res = ctx.run(name, args, now=now, cwd=cwd, order=order, tz=tz)
